@@ -386,7 +386,7 @@ pub fn run(ctx: &mut Ctx) {
     }
 
     // ---- D: interleaved client/server segments with independent clocks, failures on one side only
-    let n = ctx.scale(300_000, 6_000_000, 20) / ctx.nshards as u64 + 1;
+    let n = ctx.scale(1_500_000, 12_000_000, 20) / ctx.nshards as u64 + 1;
     let mut r: Rng = ctx.rng(19);
     for k in 0..n {
         let cport = if r.chance(1, 5) { 1 + r.u16() % 1024 } else { 1025 + r.u16() % 60000 };
